@@ -433,7 +433,8 @@ Theorem Resolve_EnvOK re_ok fuel root baseURI loader e calls :
   Resolve re_ok fuel root baseURI loader = Ok (e, calls) -> EnvOK e /\ isNode e (0, []).
 Proof.
   intros Hw Hload H. unfold Resolve in H.
-  destruct (match baseURI with [] => POk empty_uri | _ => parse_uri baseURI end) as [base| |]; try discriminate.
+  destruct (match baseURI with [] => POk empty_uri | _ => parse_uri baseURI end) as [base0| |]; try discriminate.
+  set (base := norm_base baseURI base0) in *; clearbody base.
   destruct (resolve_doc re_ok loader (detectDraft7 root) fuel (mkR [] [] [] []) root base) as [[st k]| | |] eqn:Er; cbn [bind] in H; try discriminate.
   injection H as <- _. cbn [fst].
   assert (Hfull0 : FULL (mkR [] [] [] [])).
